@@ -348,7 +348,7 @@ func NewRig(hostKey types.PrivateKey, walletKey types.PrivateKey) (*Rig, error) 
 		AcceptingContracts:  true,
 		WalletAddress:       w.Address(),
 		MaxCollateral:       types.Siacoins(1000000),
-		MaxContractDuration: 1000,
+		MaxContractDuration: 100000,
 		RemainingStorage:    1000 * proto4.SectorSize,
 		TotalStorage:        1000 * proto4.SectorSize,
 		Prices:              DefaultPrices(),
